@@ -1,5 +1,5 @@
 """C12 - addressing styles, keys verbatim (DESIGN.md section 3, C12)."""
-from .. import bytesem, flow, guards, paths
+from .. import bytesem, flow, guards, paths, inline
 from ..facts import callee_def, short
 from ..report import AnchorMissing
 from ..roles import Roles
@@ -46,7 +46,7 @@ def rule_r1(chk, db):
     # no decoder inside the parsers / unwrap helpers / request builder
     for name in ("s3s::path::parse_path_style", "s3s::path::parse_virtual_hosted_style", "s3s::http::de::unwrap_bucket", "s3s::http::de::unwrap_object", "s3s::ops::build_s3_request",
                  "s3s::path::check_key", "s3s::path::check_bucket_name"):
-        b = db.body(name)
+        b = inline.inlined(db, db.body(name))
         if b is None:
             chk.anchor_missing("R1", "%s not found" % name)
             continue
@@ -151,7 +151,7 @@ def derives_only_from(body, op, src_op, at):
 
 def rule_r3(chk, db):
     for name in ("s3s::path::parse_path_style", "s3s::path::parse_virtual_hosted_style"):
-        b = db.body(name)
+        b = inline.inlined(db, db.body(name))
         if b is None:
             raise AnchorMissing("%s not found" % name)
         n = 0
